@@ -20,10 +20,6 @@
 #include <stdio.h>
 #include <stdlib.h>
 #include <string.h>
-#if defined(__SANITIZE_ADDRESS__)
-#include <sanitizer/common_interface_defs.h>
-static void flush_on_death(void) { fflush(stdout); }
-#endif
 
 typedef struct
 {
@@ -111,9 +107,10 @@ int main(int argc, char **argv)
     char line[256];
     full = argc > 1 && strcmp(argv[1], "full") == 0;
     a_avl_root(&root);
-#if defined(__SANITIZE_ADDRESS__)
-    __sanitizer_set_death_callback(flush_on_death); /* keep the lines printed before a sanitizer abort */
-#endif
+    /* every line reaches the pipe before the next library call: a sanitizer abort (ASan or UBSan --
+       the latter does not run ASan's death callback) then loses nothing, and the check can tell
+       exactly which operation died */
+    setvbuf(stdout, A_NULL, _IOLBF, 0);
     while (fgets(line, sizeof(line), stdin))
     {
         long a = 0, b = 0;
